@@ -148,6 +148,11 @@ func (g *commonGen) template(w *World, name string, b int) []Step {
 		s2 := g.fill(w, "oauth2_callback", b)
 		s2.Str["provider"] = s1.Str["provider"]
 		out := []Step{s1, s2}
+		if g.r.Chance(1, 4) {
+			// the provider does not answer the token request; the callback comes again
+			out[1].Fault = &FaultDirective{Site: "idp.token", Index: 0, Kind: "err"}
+			out = append(out, Step{Kind: "replay", B: b})
+		}
 		if g.r.Chance(1, 3) {
 			out = append(out, Step{Kind: "replay", B: b})
 		}
@@ -199,6 +204,28 @@ func (g *commonGen) template(w *World, name string, b int) []Step {
 		out = append(out, Step{Kind: "drop_session", B: ob}, g.fill(w, "probe", ob), Step{Kind: "drop_session", B: b}, g.fill(w, "probe", b),
 			Step{Kind: "login", B: ob, A: a, Sec: &SecretRef{Kind: "oldpassword", A: a, Idx: -1}}, Step{Kind: "login", B: ob, A: a, Sec: pw(a)})
 		return out
+	case "reset_revocation_fails":
+		// another browser holds a remember cookie; the password is changed by
+		// recovery while the token store cannot be reached
+		if !c.hasModule("recover") {
+			return nil
+		}
+		ob := (b + 1) % len(w.Browsers)
+		end := Step{Kind: "recover_end", B: b, A: a, Sec: &SecretRef{Kind: "recover", A: a, Idx: -1}, Sec2: g.newPasswordFor(a),
+			Fault: &FaultDirective{Site: "db.DelRememberTokens", Index: 0, Kind: "err"}}
+		return []Step{{Kind: "login", B: ob, A: a, Sec: pw(a), RM: true}, {Kind: "recover_start", B: b, A: a}, end,
+			{Kind: "drop_session", B: ob}, g.fill(w, "probe", ob), {Kind: "login", B: ob, A: a, Sec: &SecretRef{Kind: "oldpassword", A: a, Idx: -1}}, {Kind: "login", B: ob, A: a, Sec: pw(a)}}
+	case "callback_exchange_fails":
+		// the provider cannot be reached when the code is exchanged; the same
+		// callback URL is then delivered again
+		s1 := g.fill(w, "oauth2_start", b)
+		s2 := g.fill(w, "oauth2_callback", b)
+		s2.Str["provider"] = s1.Str["provider"]
+		s2.Sec = &SecretRef{Kind: "state", A: -1, Idx: -1}
+		s2.Str["code"] = "fresh"
+		delete(s2.Str, "error")
+		s2.Fault = &FaultDirective{Site: []string{"idp.token", "idp.token", "idp.token", "idp.userinfo", "db.SaveOAuth2", "db.NewFromOAuth2"}[g.r.Intn(6)], Index: 0, Kind: "err"}
+		return []Step{s1, s2, {Kind: "replay", B: b}, g.fill(w, "probe", b)}
 	case "rotated_then_reset":
 		// the cookie is used (and exchanged) moments before the password
 		// changes; a copy of the used-up cookie turns up right afterwards
@@ -406,6 +433,17 @@ func (g *commonGen) template(w *World, name string, b int) []Step {
 			out = append(out, Step{Kind: "recover_start", B: b, A: a}, Step{Kind: "recover_end", B: b, A: a, Sec: &SecretRef{Kind: "recover", A: a, Idx: -1}, Sec2: &SecretRef{Kind: "literal", Lit: "G00d-enough!pw"}})
 		}
 		out = append(out, g.fill(w, "probe", b))
+		if g.r.Chance(1, 3) {
+			// the store hiccups at one of the first calls of a login of the gated account
+			for i := range out {
+				if out[i].Kind == "login" || out[i].Kind == "otp_login" || out[i].Kind == "recover_end" {
+					out[i].Fault = &FaultDirective{Site: []string{"db.Save", "db.Save", "db.Load"}[g.r.Intn(3)], Index: g.r.Intn(2), Kind: "err"}
+					if g.r.Bool() {
+						break
+					}
+				}
+			}
+		}
 		return out
 	case "regate_while_logged_in":
 		// a logged-in session passes the guard, the operator then locks the
@@ -568,6 +606,20 @@ func (g *commonGen) template(w *World, name string, b int) []Step {
 			}
 		}
 		return out
+	case "mangled_then_idle":
+		// the session store damages the activity stamp; the session then idles out
+		for i := range w.Accts {
+			if w.KB.TOTPSecret[i] == "" && w.KB.SMSNumber[i] == "" {
+				a = i
+			}
+		}
+		how := []string{"truncate", "empty", "unix", "garbage"}[g.r.Intn(4)]
+		E := c.ExpireAfter
+		return []Step{{Kind: "drop_session", B: b}, {Kind: "login", B: b, A: a, Sec: pw(a)},
+			{Kind: "probe", B: b, Gap: g.r.Dur(0, E/2), Str: map[string]string{"path": "/probe/open"}},
+			{Kind: "mangle_stamp", B: b, Str: map[string]string{"how": how}},
+			{Kind: "probe", B: b, Gap: E + g.r.Dur(time.Second, E), Str: map[string]string{"path": "/probe/open"}},
+			{Kind: "probe", B: b, Gap: g.r.Dur(0, E/2), Str: map[string]string{"path": "/probe/open"}}}
 	case "cookie_then_idle":
 		// a session a remember cookie established (half-authenticated) idles out like any other
 		if !c.ExpireWithRemember {
